@@ -4,18 +4,19 @@
  "standin": "B-sess",
  "bound": "real pytest subprocess sessions on 1 (quick) / 3 (thorough) generated 4-category template projects: 16 category subsets x {flags, +report, +short-report, review answers, review+flags, env var, pyproject, CI, xdist} (quick: ~35 of these) + single-test (-k) sessions per failing operation; external-storage histories of 7 steps + no-trim probes for 2 (quick) / 6 (thorough) data/suffix/hash-length/storage-dir variants",
  "input": {
-  "suffix_arg": null,
+  "suffix_arg": ".png",
   "hash_length": null,
   "storage_dir": null,
   "datas": [
-   "'text one 802'",
-   "'text two 802'",
-   "'text three 802'"
+   "b'\\x00\\x01\"'",
+   "b'\\x00\\x02'",
+   "b'\\xff\\x03'"
   ],
   "quick": true,
-  "step": "S5 probe: review, no prompt appears"
+  "s4": "none",
+  "step": "S8 trim after hash-length 12 -> 18"
  },
- "detail": "C13/C04: session ['--inline-snapshot=review'] env={} stdin=b'n\\n' approved no trim but: ['- .inline-snapshot/external/8b2446c4dddcf01cb995f71d9dba6df8df478d3a9ed4a5b81dbc1c20a610bcbd.txt (deleted)']\ntest_e.py \u001b[32m.\u001b[0m\u001b[32m                                                              [100%]\u001b[0m\n\n\u2550\u2550\u2550\u2550\u2550\u2550\u2550\u2550\u2550\u2550\u2550\u2550\u2550\u2550\u2550\u2550\u2550\u2550\u2550\u2550\u2550\u2550\u2550\u2550\u2550\u2550\u2550\u2550\u2550\u2550\u2550 inline-snapshot \u2550\u2550\u2550\u2550\u2550\u2550\u2550\u2550\u2550\u2550\u2550\u2550\u2550\u2550\u2550\u2550\u2550\u2550\u2550\u2550\u2550\u2550\u2550\u2550\u2550\u2550\u2550\u2550\u2550\u2550\u2550\u2550\nremoved 1 unused externals\n\n\n\n==================================== PASSES ====================================\n------------ generated xml file: /tmp/bsess-out-3_83hhi0/junit.xml -------------\n\u001b[36m\u001b[1m=========================== short test summary info ============================\u001b[0m\n\u001b[32mPASSED\u001b[0m test_e.py::\u001b[1mtest_ext\u001b[0m\n\u001b[32m============================== \u001b[32m\u001b[1m1 passed\u001b[0m\u001b[32m in 5.86s\u001b[0m\u001b[32m ===============================\u001b[0m"
+ "detail": "C13: storage = []; expected exactly 5b9f13720f7a45875e7095b41e43a15ec699bb298bc7b811495911d683a1b1f0.png (still referenced by external(\"5b9f13720f7a*.png\"))\n============================= test session starts ==============================\nplatform linux -- Python 3.12.1, pytest-9.1.1, pluggy-1.6.0\nrootdir: /tmp/bsess-594t2bqa/proj\nconfigfile: pyproject.toml\nplugins: rerunfailures-16.7, xdist-3.8.0, hypothesis-6.168.0, asyncio-1.4.0, timeout-2.4.0, inline-snapshot-0.22.3, mock-3.15.1, pytest_freezer-0.4.9, cov-7.1.0\nasyncio: mode=Mode.STRICT, debug=False, asyncio_default_fixture_loop_scope=None, asyncio_default_test_loop_scope=function\ncollected 1 item\n\ntest_e.py .                                                              [100%]\n\n\u2550\u2550\u2550\u2550\u2550\u2550\u2550\u2550\u2550\u2550\u2550\u2550\u2550\u2550\u2550\u2550\u2550\u2550\u2550\u2550\u2550\u2550\u2550\u2550\u2550\u2550\u2550\u2550\u2550\u2550\u2550 inline-snapshot \u2550\u2550\u2550\u2550\u2550\u2550\u2550\u2550\u2550\u2550\u2550\u2550\u2550\u2550\u2550\u2550\u2550\u2550\u2550\u2550\u2550\u2550\u2550\u2550\u2550\u2550\u2550\u2550\u2550\u2550\u2550\u2550\nremoved 1 unused externals\n\n\n\n==================================== PASSES ====================================\n------------ generated xml file: /tmp/bsess-out-sq_oeudm/junit.xml -------------\n=========================== short test summary info ============================\nPASSED test_e.py::test_ext\n============================== 1 passed in 1.27s ==============================="
 }
 """
 
@@ -88,18 +89,21 @@ ROOT = tempfile.mkdtemp()
 PROJ = os.path.join(ROOT, "proj")
 os.mkdir(PROJ)
 try:
-    write(PROJ, {'test_e.py': "from inline_snapshot import outsource, snapshot\n\n\ndef test_ext():\n    assert outsource('text one 802') == snapshot()\n", 'pyproject.toml': '[tool.inline-snapshot]\n'})
+    write(PROJ, {'test_e.py': 'from inline_snapshot import outsource, snapshot\n\n\ndef test_ext():\n    assert outsource(b\'\\x00\\x01"\', suffix=\'.png\') == snapshot()\n', 'pyproject.toml': '[tool.inline-snapshot]\n'})
     r = session(PROJ, ['--inline-snapshot=create'])
     r = session(PROJ, [])
-    write(PROJ, {'test_e.py': 'from inline_snapshot import outsource, snapshot\n\nfrom inline_snapshot import external\n\n\ndef test_ext():\n    assert outsource(\'text two 802\') == snapshot(external("8b2446c4dddc*.txt"))\n'})
+    write(PROJ, {'test_e.py': 'from inline_snapshot import outsource, snapshot\n\nfrom inline_snapshot import external\n\n\ndef test_ext():\n    assert outsource(b\'\\x00\\x02\', suffix=\'.png\') == snapshot(external("05b3abbe1b70*.png"))\n'})
     r = session(PROJ, ['--inline-snapshot=report'])
-    write(PROJ, {'test_e.py': 'from inline_snapshot import outsource, snapshot\n\nfrom inline_snapshot import external\n\n\ndef test_ext():\n    assert outsource(\'text three 802\') == snapshot(external("8b2446c4dddc*.txt"))\n'})
-    r = session(PROJ, ['--inline-snapshot=short-report'])
+    write(PROJ, {'test_e.py': 'from inline_snapshot import outsource, snapshot\n\nfrom inline_snapshot import external\n\n\ndef test_ext():\n    assert outsource(b\'\\xff\\x03\', suffix=\'.png\') == snapshot(external("05b3abbe1b70*.png"))\n'})
+    r = session(PROJ, [])
     r = session(PROJ, ['--inline-snapshot=fix'])
-    r = session(PROJ, ['--inline-snapshot=review'], stdin=b'n\n')
+    r = session(PROJ, ['--inline-snapshot=trim'])
+    r = session(PROJ, ['--inline-snapshot=create,fix,trim,update'])
+    write(PROJ, {'pyproject.toml': '[tool.inline-snapshot]\nhash-length = 18\n'})
+    r = session(PROJ, ['--inline-snapshot=trim'])
     print(r['out'][-2500:])
     ext = lambda t: {k[26:]: v for k, v in t.items() if k.startswith('.inline-snapshot/external/') and not k.endswith('.gitignore')}
-    assert r['after'] == r['before'], sorted(k for k in set(r['after']) | set(r['before']) if r['after'].get(k) != r['before'].get(k))
+    assert ext(r['after']) == {'5b9f13720f7a45875e7095b41e43a15ec699bb298bc7b811495911d683a1b1f0.png': b'\xff\x03'}, sorted(ext(r['after']))
 finally:
     shutil.rmtree(ROOT, ignore_errors=True)
 print("replay: no violation observed")
